@@ -38,10 +38,28 @@ def gcase(klass, td, params, nparams, arg_tuples, fixed_prefix="", fixed_suffix=
         # expanding the generic declaration at the arguments == the instantiation's own concrete declaration
         body.append(f'ctx.check_equiv("instantiated-generic-declaration-differs-from-concrete-declaration", &|| <{t} as TS>::name(), &|| <{t} as TS>::inline());')
         body.append(f'ctx.check_same_string("decl_concrete-is-not-the-inline-form", &|| <{t} as TS>::decl_concrete(), &|| format!("type {{}} = {{}};", <{t} as TS>::ident(), <{t} as TS>::inline()));')
-    return Case(klass, [td], body, decl_types=[first])
+    c = Case(klass, [td], body, decl_types=[first])
+    c.last_inst = inst(arg_tuples[-1])
+    return c
 
 
 def build(tier):
+    out = build0(tier)
+    # call-order twins: the same case with a concrete instantiation asked for its inline form, its concrete
+    # declaration and its name BEFORE the generic declaration is asked for the first time (own copy of the
+    # type definitions, hence own copies of whatever the expansion keeps between calls)
+    twins = []
+    for c in out:
+        li = getattr(c, "last_inst", None)
+        if li is None:
+            continue
+        t = Case({**c.klass, "order": "concrete-first"}, c.types, list(c.body), strings=c.strings, extra_items=c.extra_items, decl_types=c.decl_types,
+                 warmup=[f"<{li} as TS>::inline()", f"<{li} as TS>::decl_concrete()", f"<{li} as TS>::name()"])
+        twins.append(t)
+    return out + twins
+
+
+def build0(tier):
     quick = tier == "quick"
     out = []
     args1 = [(a,) for a in ARGS]
@@ -58,6 +76,9 @@ def build(tier):
         "inline-param": [Field("T", "v", ["#[ts(inline)]"])],
         "inline-container-of-param": [Field("Vec<T>", "v", ["#[ts(inline)]"])],
         "flatten-param": [Field("i32", "own"), Field("T", "v", ["#[ts(flatten)]"])],
+        "lone-flatten-param": [Field("T", "v", ["#[ts(flatten)]"])],
+        "lone-flatten-generic": [Field("Gp<T>", "v", ["#[ts(flatten)]"])],
+        "two-flattened-params": [Field("T", "v", ["#[ts(flatten)]"]), Field("Gp<T>", "w", ["#[ts(flatten)]"])],
         "optional-param": [Field("Option<T>", "v", ["#[ts(optional)]"])],
         "twice": [Field("T", "a"), Field("Vec<T>", "b"), Field("Option<Box<T>>", "c")],
         "unused-with-phantom": [Field("std::marker::PhantomData<T>", "p"), Field("i32", "x")],
@@ -66,8 +87,10 @@ def build(tier):
     for use, fields in uses.items():
         td = TypeDef("G", "struct", "named", fields, generics=["T"], derives=TS_ONLY, vals=False)
         a = args1
-        if use == "flatten-param":
+        if use in ("flatten-param", "lone-flatten-param", "two-flattened-params"):
             a = [("St",), ("Gp<St>",), ("Gp<Gp<i32>>",)]   # flattening needs an object
+        if use == "two-flattened-params":
+            a = [("St",), ("Ei",)]   # flattening T and Gp<T>: T's keys must differ from Gp's own
         out.append(gcase({"family": "generic-1", "use": use}, td, [("T", None)], 1, a))
     # tuple / newtype structs and enums
     out.append(gcase({"family": "generic-1", "use": "newtype"}, TypeDef("G", "struct", "tuple", [Field("T")], generics=["T"], derives=TS_ONLY, vals=False), [("T", None)], 1, args1))
@@ -79,6 +102,10 @@ def build(tier):
         td = TypeDef("G", "enum", variants=vs, attrs=attrs, generics=["T"], derives=TS_ONLY, vals=False)
         a = args1 if rp != "internal" else [("St",), ("Gp<St>",), ("Gp<Gp<i32>>",)]
         out.append(gcase({"family": "generic-1", "use": "enum", "repr": rp}, td, [("T", None)], 1, a))
+    for rp, attrs in (("external", []), ("internal", ['#[ts(tag = "t")]']), ("adjacent", ['#[ts(tag = "t", content = "c")]']), ("untagged", ["#[ts(untagged)]"])):
+        vs = [Variant("A", "named", [Field("Gp<T>", "v", ["#[ts(flatten)]"])]), Variant("B", "named", [Field("T", "x")]), Variant("C", "unit")]
+        td = TypeDef("G", "enum", variants=vs, attrs=attrs, generics=["T"], derives=TS_ONLY, vals=False)
+        out.append(gcase({"family": "generic-1", "use": "enum-variant-lone-flatten", "repr": rp}, td, [("T", None)], 1, args1))
     # defaults
     for dflt, ts in (("i32", "number"), ("St", "St"), ("Gp<St>", "Gp<St>"), ("Option<Vec<St>>", "Array<St> | null")):
         td = TypeDef("G", "struct", "named", [Field("T", "v"), Field("Vec<T>", "l")], generics=["T"], generics_decl=f"<T = {dflt}>", generics_use="<T>", derives=TS_ONLY, vals=False)
